@@ -12,7 +12,8 @@ EXPLANATION = (
     "cohorts of get_stock_by_cohort(), outflow = sum over cohorts of get_outflow_by_cohort(); both tables identically zero for "
     "cohorts later than the year; every cohort's stock = its inflow rate x its interval length x its survival share; entered = still "
     "in stock + left so far (outflow rates x their interval lengths) for every cohort, label and year. 'Never increases for "
-    "non-negative inflow' follows from the share identity and C08 (survival non-increasing with age), not decided separately.")
+    "non-negative inflow' follows from the share identity and C08 (survival non-increasing with age), not decided separately. "
+    "The identities are also checked on re-used objects (driver / parameters / quadrature setting changed between two compute() calls), for column-major (non-contiguous) stock arrays and on an equidistant grid.")
 TECHNIQUE = "static analysis: abstract interpretation over exact symbolic rational forms on bounded grids; cohort identities as polynomial identities"
 
 
